@@ -771,7 +771,9 @@ def oracle_scipy(inp):
     for s in res.starting_points:
       if not in_domain(list(s), lb, ub, [], cons, 0.0):
         continue
-      single = L.opt.SLSQPOptimizer(dom, Obj())
+      from libsigopt.compute.optimization_auxiliary import SLSQPParameters
+      # both ways of supplying the gradient (analytic, or SciPy's finite differences: approx_grad=True) hand the same constraints to SLSQP
+      single = L.opt.SLSQPOptimizer(dom, Obj(), SLSQPParameters(approx_grad=True) if inp.get("approx_grad") else None)
       single.objective_function.current_point = numpy.array(s, dtype=float)
       single.optimize()
       r = single.optimization_results
@@ -813,8 +815,63 @@ def oracle_scipycons(inp):
   return None
 
 
+_CL_LOG = []   # module-level: survives the deepcopy constant_liar_acquisition_function_optimization makes of the acquisition function
+
+
+def oracle_clrounds(inp):
+  """The two-stage vectorised optimisation inside the constant-liar loop (real DE + Adam, small budgets, real EI on a small GP): in every
+  round the point the loop takes (the one it appends as a lie) is a point the optimisers evaluated IN THAT ROUND - under the acquisition
+  function as it stands after the previous lies - and no point evaluated in that round by the final (gradient) stage has a higher value."""
+  import libsigopt.compute.acquisition_function_optimization as afo
+  from libsigopt.compute.domain import CategoricalDomain
+  from libsigopt.compute.expected_improvement import ExpectedImprovement
+  from lib import c01_util, gpgen
+  c01_util.shrink_optimisers()
+  gp = gpgen.make_gp(inp["gp"])
+  dim = gp.dim
+  dom = CategoricalDomain([dict(var_type="double", elements=[-0.2, 1.2]) for _ in range(dim)])
+
+  class RecEI(ExpectedImprovement):
+    def evaluate_at_point_list(self, pts, batch_size=None):
+      v = super().evaluate_at_point_list(pts, batch_size=batch_size)
+      _CL_LOG[-1]["evals"].append((numpy.array(pts, dtype=float).reshape(len(v), -1).copy(), numpy.array(v, dtype=float).copy(), "value"))
+      return v
+
+    def joint_function_gradient_eval(self, pts):
+      v, g = super().joint_function_gradient_eval(pts)
+      _CL_LOG[-1]["evals"].append((numpy.array(pts, dtype=float).reshape(len(v), -1).copy(), numpy.array(v, dtype=float).copy(), "grad"))
+      return v, g
+
+    def append_lie_locations(self, lie):
+      _CL_LOG[-1]["taken"] = numpy.array(lie, dtype=float).reshape(-1).copy()
+      _CL_LOG[-1]["value_taken"] = float(ExpectedImprovement.evaluate_at_point_list(self, numpy.atleast_2d(lie))[0])
+      super().append_lie_locations(lie)
+      _CL_LOG.append(dict(evals=[], taken=None))
+  del _CL_LOG[:]
+  _CL_LOG.append(dict(evals=[], taken=None))
+  state = numpy.random.get_state()
+  numpy.random.seed(inp["seed"])
+  try:
+    afo.constant_liar_acquisition_function_optimization(dom.one_hot_domain, RecEI(gp), inp["k"])
+  finally:
+    numpy.random.set_state(state)
+  for rnd, rec in enumerate(_CL_LOG[:-1]):
+    allp = numpy.vstack([p for p, _, _ in rec["evals"]]) if rec["evals"] else numpy.empty((0, dim))
+    if not len(allp) or float(numpy.abs(allp - rec["taken"][None, :]).max(axis=1).min()) > 0:
+      return dict(signature="C07:clrounds:point-not-evaluated-in-its-round", what=f"constant-liar round {rnd}: the point taken was not evaluated in that round (it is the best of an "
+                  "earlier round, found under an acquisition function that has since changed)", input=inp, observed=dict(round=rnd, taken=rec["taken"].tolist()),
+                  expected="a point evaluated in this round", oracle="recording acquisition function")
+    gv = [float(v.max()) for _, v, kind in rec["evals"] if kind == "grad" and len(v)]
+    if gv and rec["value_taken"] < max(gv) - 1e-12 * max(1.0, abs(max(gv))):
+      return dict(signature="C07:clrounds:taken-point-is-not-the-best-evaluated", what=f"constant-liar round {rnd}: the gradient stage evaluated a point of higher value than the one taken",
+                  input=inp, observed=dict(round=rnd, value_taken=rec["value_taken"], best_evaluated=max(gv)), expected="the evaluated point of highest value", oracle="recording acquisition function")
+  return None
+
+
 def oracle(inp):
   try:
+    if inp["kind"] == "clrounds":
+      return oracle_clrounds(inp)
     if inp["kind"] == "scipycons":
       return oracle_scipycons(inp)
     if inp["kind"] == "ms":
@@ -961,7 +1018,7 @@ def gen_search(rng):
   elif kind == "adam":
     inp.update(lr=rng.choice([0.001, 0.01, 0.1, 1.0]) * scale, n=rng.randint(1, 10))
   else:
-    inp.update(nm=rng.randint(1, 4), slsqp=bool(cons) or rng.random() < 0.5, fixed=[])
+    inp.update(nm=rng.randint(1, 4), slsqp=bool(cons) or rng.random() < 0.5, fixed=[], approx_grad=rng.random() < 0.4)
   return inp
 
 
@@ -986,6 +1043,11 @@ def search(ctx, hints, broken):
   for _ in range(ctx.n(200, 3000)):
     n += 1
     add(oracle(gen_scipy_case(rng)))
+  from lib import gpgen
+  for _ in range(ctx.n(6, 60)):   # the real two-stage optimisation inside the constant-liar loop
+    n += 1
+    add(oracle(dict(kind="clrounds", gp=gpgen.gen_gp_input(rng, differentiable=True, well_conditioned=True, allow_multitask=False, max_n=7, max_dim=2), k=rng.choice([2, 3]),
+                    seed=rng.randrange(2 ** 31))))
   for _ in range(ctx.n(120, 2500) * (2 if broken else 1)):
     inp = gen_search(rng)
     n += 1
